@@ -28,7 +28,7 @@ RULE = (
     "(sequences) every tuple of per-machine permutations of the right job multisets: accepted "
     "<=> the union of job chains and machine chains is acyclic (own DFS), accepted => complete, "
     "feasible, sequences reproduced, rejected => ValidationError, under a 10 s CPU-time budget per call (hang = "
-    "violation); (immutability) a content fingerprint of the instance is taken before and "
+    "violation); (from_matrices) nested machine lists for single-machine operations are accepted and later edits of the caller's matrices leave the views equal to their definition; (immutability) a content fingerprint of the instance is taken before and "
     "after dispatching with all observers, all rule solvers, CP-SAT, 5 graph builders, an "
     "environment episode and serialisation. Case = one instance (views/round trip), one "
     "(instance, history) or one (instance, permutation tuple); non-trivial = >= 2 jobs and >= 3 "
